@@ -32,9 +32,13 @@ static inline void unlock(void) { __sync_lock_release(&lk); }
 static inline unsigned h(void *p) { return (unsigned)(((uintptr_t)p >> 4) * 2654435761u) & (NSLOT - 1); }
 #define TOMB ((void *)1)
 
+static __thread size_t my_allocs;      /* allocations made by the calling OS thread (sound under concurrency, unlike the global count) */
+size_t c19_ledger_my_allocs(void) { return my_allocs; }
+
 static void add(void *p, void *caller)
 {
     if (!p || !c19_track) return;
+    my_allocs++;
     size_t sz = malloc_usable_size(p);
     lock();
     unsigned i = h(p);
